@@ -98,8 +98,9 @@ def strings_upto(alphabet, maxlen, minlen=0):
 
 
 LINE_ALPHABET = [b"\n", b"\r", b"\x0b", b"\x0c", b"\x1c", b"\x85", b"\xc2", b"\xe2", b"\x80",
-                 b"\xa8", b"\xff", b"D", b"x", b"DDBEGIN", b"DDEND"]
+                 b"\xa8", b"\xff", b"D", b"x", b"DDBEGIN", b"DDEND", b"\xef\xbb\xbf"]
 LINE_ALPHABET_SMALL = [b"\n", b"\r", b"\x85", b"\xc2", b"x", b"DDBEGIN", b"DDEND", b"\xe2\x80\xa9"]
+BOM = b"\xef\xbb\xbf"
 SYMBOL_ALPHABET = [b"]", b"}", b":", b"?", b"=", b";", b"{", b"[", b"\n", b"a", b"\r"]
 JS_ALPHABET = [b"'", b'"', b"\\", b"x", b"u", b"{", b"}", b"0", b"a", b"\n"]
 ATTR_ALPHABET = [b"<", b">", b"=", b" ", b"\n", b"a", b"-", b":", b'"', b"'", b"/"]
